@@ -94,6 +94,8 @@ pub struct OBook {
     pub manifest_comments: bool,
     /// write plain manifest entries as start tag + end tag instead of an empty-element tag
     pub manifest_end_tags: bool,
+    /// XML comments (with text) inside content.xml: before and between the cells of a row, between rows and tables
+    pub xml_comments: bool,
 }
 
 fn spaces_xml(n: usize, mode: SpaceMode, at_start: bool) -> String {
@@ -205,9 +207,12 @@ pub fn content_xml(b: &OBook) -> String {
         for (i, r) in s.rows.iter().enumerate() {
             match (b.row_wrappers, i) { (1 | 3, 0) => o.push_str("<table:table-header-rows>"), (2, 0) => o.push_str("<table:table-row-group>"), (3, 1) => o.push_str("<table:table-rows>"), _ => {} }
             if r.repeat != 1 { o.push_str(&format!("<table:table-row table:number-rows-repeated=\"{}\">", r.repeat)); } else { o.push_str("<table:table-row>"); }
+            if b.xml_comments { o.push_str("<!-- first cell of the row -->"); }
             if r.cells.is_empty() { o.push_str("<table:table-cell/>"); }
-            for (c, rep) in &r.cells { o.push_str(&cell_xml(c, *rep, b.cell_attr_order)); }
+            for (ci, (c, rep)) in r.cells.iter().enumerate() { if b.xml_comments && ci > 0 { o.push_str("<!--next-->"); } o.push_str(&cell_xml(c, *rep, b.cell_attr_order)); }
+            if b.xml_comments { o.push_str("<!-- end of row -->"); }
             o.push_str("</table:table-row>");
+            if b.xml_comments { o.push_str("<!-- between rows -->"); }
             if matches!(b.row_wrappers, 1 | 3) && i == 0 { o.push_str("</table:table-header-rows>"); }
             if b.row_wrappers == 2 && i + 1 == n { o.push_str("</table:table-row-group>"); }
             if b.row_wrappers == 3 && i + 1 == n && i >= 1 { o.push_str("</table:table-rows>"); }
@@ -281,7 +286,7 @@ pub fn indent_xml(x: &str) -> String {
             let end = i + b[i..].iter().position(|c| *c == b'>').unwrap();
             let tag = &x[i..=end];
             let closing = tag.starts_with("</");
-            let selfc = tag.ends_with("/>") || tag.starts_with("<?");
+            let selfc = tag.ends_with("/>") || tag.starts_with("<?") || tag.starts_with("<!--");
             if closing { depth = depth.saturating_sub(1); }
             // a tag directly after another tag (no text in between) gets its own line
             if i > 0 && b[i - 1] == b'>' && p_depth == 0 { out.push('\n'); for _ in 0..depth { out.push_str("  "); } }
